@@ -259,7 +259,7 @@ vk_rollback!(c17_rollback_k0_toplevel, 0, kani::any::<i32>(), ColumnType::Native
 // VK-funcs: as c17_rollback_k0_toplevel
 // VK-bounds: prefix of 2 bound values (symbolic int, null), then a top-level type mismatch (i64 into int)
 vk_rollback!(c17_rollback_k2_toplevel, 2, kani::any::<i64>(), ColumnType::Native(NativeType::Int));
-// VK: prop=C17 tier=thorough cap=3000
+// VK: prop=C17 tier=off cap=3000
 // VK-funcs: as c17_rollback_k0_toplevel + impl_tuple (nested failure after a partial write)
 // VK-bounds: prefix of 1 bound value, then (i32, i64) into tuple<int,int>: the first field is written before the second fails
 vk_rollback!(c17_rollback_k1_nested_tuple, 1, (kani::any::<i32>(), kani::any::<i64>()),
